@@ -45,9 +45,9 @@ Definition upd (f : spec) (key : string) (v : note_val) : spec :=
   fun k => if String.eqb k key then Some v else f k.
 Definition no_spec : spec := fun _ => None.
 
-(* import reads file names *)
+(* import takes the state names as the keys (graph.rs:316 `Key::name`) *)
 Definition ops_of (notes : list op) : list op :=
-  map (fun n => (key_from_file_name (fst (fst n)), snd (fst n), snd n)) notes.
+  map (fun n => (key_name (fst (fst n)), snd (fst n), snd n)) notes.
 
 (* ---------- trees: id erasure, node maps -------------------------------------------------------------- *)
 
@@ -368,17 +368,17 @@ Qed.
 Lemma import_fold_tree (notes : list op) : NoDup (map note_key notes) ->
   forall g0 f0, tree_inv g0 f0 -> (forall n, In n notes -> f0 (note_key n) = None) ->
   exists g1, fold_left (fun acc n => do g <- acc; let '(name, meta, bs) := n in
-                          build_note g (key_from_file_name name) meta bs) notes (Ok g0) = Ok g1 /\
+                          build_note g (key_name name) meta bs) notes (Ok g0) = Ok g1 /\
              tree_inv g1 (over (last_op (ops_of notes)) f0) /\ gr_titles g1 = gr_titles g0.
 Proof.
   induction notes as [|[[name meta] bs] notes IH]; intros Hnd g0 f0 Hinv Hfresh.
   - exists g0. split; [reflexivity|]. split; [|reflexivity]. eapply tree_inv_ext; [|exact Hinv]. intros k. reflexivity.
   - cbn [map] in Hnd. apply NoDup_cons_iff in Hnd as [Hni Hnd]. cbn [fold_left bind].
     pose proof (Hfresh _ (or_introl eq_refl)) as Hnone. unfold note_key in Hnone. cbn [fst] in Hnone.
-    destruct (build_note_tree g0 f0 (key_from_file_name name) meta bs Hinv Hnone) as (g1 & -> & Hinv1 & Ht1).
+    destruct (build_note_tree g0 f0 (key_name name) meta bs Hinv Hnone) as (g1 & -> & Hinv1 & Ht1).
     destruct (IH Hnd g1 _ Hinv1) as (g2 & Hf & Hinv2 & Ht2).
     + intros n Hin. unfold upd.
-      destruct (String.eqb (note_key n) (key_from_file_name name)) eqn:E; [|apply Hfresh; now right].
+      destruct (String.eqb (note_key n) (key_name name)) eqn:E; [|apply Hfresh; now right].
       apply String.eqb_eq in E. exfalso. apply Hni. unfold note_key at 1. cbn [fst]. rewrite <- E.
       now apply (in_map note_key).
     + exists g2. split; [exact Hf|]. split; [|congruence].
@@ -680,8 +680,8 @@ Theorem collect_after_import_history (notes ops : list op) :
   NoDup (map note_key notes) ->
   exists g, run ops (import notes) = Ok g /\
     (forall k m bs, last_op ops k = Some (m, bs) -> settled g k m bs) /\
-    (forall name m bs, In (name, m, bs) notes -> ~ In (key_from_file_name name) (map op_key ops) ->
-                       settled g (key_from_file_name name) m bs) /\
+    (forall name m bs, In (name, m, bs) notes -> ~ In (key_name name) (map op_key ops) ->
+                       settled g (key_name name) m bs) /\
     (forall k, In k (map fst (gr_keys g)) <-> In k (map op_key ops) \/ In k (map note_key notes)) /\
     NoDup (map fst (gr_keys g)).
 Proof.
@@ -691,7 +691,7 @@ Proof.
   - intros name m bs Hin Hni. apply (inv_settled g _ _ m bs Hg). unfold over.
     rewrite (proj2 (last_op_none ops _) Hni). apply last_op_in; [now rewrite op_key_ops_of|].
     unfold ops_of. apply in_map_iff. exists (name, m, bs). auto.
-  - intros k. rewrite (keys_iff g _ (proj1 Hg) k). unfold over. rewrite <- op_key_ops_of.
+  - intros k. rewrite (keys_iff g _ (proj1 Hg) k). unfold over. rewrite <- (op_key_ops_of notes).
     destruct (last_op ops k) as [x|] eqn:E.
     + split; [|discriminate]. intros _. left.
       destruct (in_dec string_dec k (map op_key ops)) as [Hi|Hi]; [exact Hi|].
@@ -831,7 +831,7 @@ Definition hx_ops : list op :=
    ("d/b", None, hx_b2);
    ("c", None, hx_c1);
    ("a", Some "t: x", hx_a3)].
-Definition hx_fresh : list op := [("a.md", Some "t: x", hx_a3); ("c.md", None, hx_c1); ("d/b.md", None, hx_b2)].
+Definition hx_fresh : list op := [("a", Some "t: x", hx_a3); ("c", None, hx_c1); ("d/b", None, hx_b2)].
 
 Example hx_perm : Permutation (final_ops hx_ops) (ops_of hx_fresh).
 Proof.
@@ -861,8 +861,9 @@ Example hx_no_history :
       get_key_title g k = get_key_title g' k.
 Proof. exact (text_fresh_import hx_ops hx_fresh hx_perm). Qed.
 
-(* keys are compared verbatim by update_key: `x`, `x.md` and `X` are three notes (the server normalises the key
-   before it calls update_key); Graph::import normalises file names, hence the hypothesis NoDup (map note_key notes) *)
+(* keys are compared verbatim by update_key: `x`, `x.md` and `X` are three notes (the server derives the key from
+   the URI before it calls update_key); Graph::import takes the state names as keys too (`Key::name`); the
+   hypothesis NoDup (map note_key notes) says that the list is a map, which a State is by construction *)
 Example keys_verbatim :
   match run [("x", None, [ex_p]); ("x.md", None, [ex_h]); ("X", None, [])] (Ok empty_graph) with
   | Ok g => map fst (gr_keys g) = ["x"; "x.md"; "X"]
@@ -870,10 +871,10 @@ Example keys_verbatim :
   end.
 Proof. vm_compute. reflexivity. Qed.
 
-(* NoDup (map note_key notes) is what the forest invariant needs (HistoryWF.import_wf_refuted: `x.md` and `x.md.md`
-   are both the note `x`, the first root stays a live orphan); it is sufficient, not necessary, for the text: on that
-   witness the text of `x` is still the one of the last file *)
-Definition dup_notes : list op := [("x.md", None, [ex_p]); ("x.md.md", Some "m", [ex_h])].
+(* NoDup (map note_key notes) is what the forest invariant needs (HistoryWF.import_wf_refuted: a list that names
+   `x` twice, the first root stays a live orphan); it is sufficient, not necessary, for the text: on that
+   witness the text of `x` is still the one of the last entry *)
+Definition dup_notes : list op := [("x", None, [ex_p]); ("x", Some "m", [ex_h])].
 Example dup_import_text :
   match import dup_notes with
   | Ok g => wf_b (gr_arena g) (gr_keys g) = false /\
